@@ -20,11 +20,11 @@ def mime_of(t):
     return graphtage.FILETYPES_BY_TYPENAME[t].default_mimetype
 
 
-def write(t, doc, dialects=True) -> bytes:
+def write(t, doc, dialects=True, variant=None) -> bytes:
     """Serialise `doc` (plain data for DATA_TYPES, table for csv, element spec for xml/html) with an independent writer."""
     # Each format is written in several of its own dialects (chosen deterministically from the document), so that a
     # loader path that only handles "the JSON subset" of JSON5, block-style YAML or XML plists is not the only one driven.
-    variant = _variant(doc)
+    variant = _variant(doc) if variant is None else variant
     if t == "json":
         # (half of the files carry non-ASCII text raw, as UTF-8, the other half as \u escapes)
         return json.dumps(doc, indent=[None, None, 1][variant % 3], ensure_ascii=variant % 2 == 0).encode("utf-8", "surrogatepass")
